@@ -121,7 +121,7 @@ func decide(root, osPath string) []alt {
 	ps3idx := -1
 	nPS3 := 0
 	for i, c := range elems[:len(elems)-1] {
-		if strings.EqualFold(c, "ps3iso") {
+		if asciiEqualFold(c, "ps3iso") {
 			if ps3idx < 0 {
 				ps3idx = i
 			}
@@ -176,7 +176,7 @@ func decide(root, osPath string) []alt {
 		}
 		return append([]alt{{fail: true, kind: "malformed-key-refused"}, identity}, b...)
 	}
-	if strings.EqualFold(ext, ".iso") && ps3idx >= 0 {
+	if asciiEqualFold(ext, ".iso") && ps3idx >= 0 {
 		if nPS3 > 1 {
 			return nil // which PS3ISO directory is "the" one is not stated
 		}
@@ -282,4 +282,25 @@ func randBytes(r *rand.Rand, n int) []byte {
 	b := make([]byte, n)
 	r.Read(b)
 	return b
+}
+
+// asciiEqualFold: "any case" of an ASCII name means the ASCII letters only (U+0130 or U+017F are
+// not spellings of I and S).
+func asciiEqualFold(a, b string) bool {
+	if len(a) != len(b) {
+		return false
+	}
+	for i := 0; i < len(a); i++ {
+		x, y := a[i], b[i]
+		if x >= 'A' && x <= 'Z' {
+			x += 32
+		}
+		if y >= 'A' && y <= 'Z' {
+			y += 32
+		}
+		if x != y {
+			return false
+		}
+	}
+	return true
 }
